@@ -57,6 +57,25 @@ CLAIMED = {
             "= sum of archetype and table sizes, per-composition counts, total = used + recycled <= capacity, distinct "
             "archetypes, size <= capacity, memory products and sums, filter / observer / lock figures) and its equality with "
             "the statistics of a twin world that replays the same history and is asked once.", "7 C19"),
+    "C12": ("Layer B is a deterministic state machine (every order-defining container is a sequence).  Product traces: the same "
+            "TLC-generated and driver-generated histories are executed twice with the same process settings and in further "
+            "processes with different GOGC / GOMAXPROCS (fresh map seeds); ArkProd requires equality of everything logged: "
+            "returned handles, full projections, iteration order of every probe query, callback order, statistics.", "7 C12"),
+    "C14": ("Layer A has one action per operation kind, whatever the API path, so equivalence is a product-trace property: "
+            "the same histories run through Map1..12 / Exchange1..8 / Filter0..8 / Observer1..4 (type parameters permuted, "
+            "relations by index and by type) and through the ID-based API; each run is validated against layer A (values "
+            "encode the component, so mis-ordered pointers are wrong values; query pointers must equal mapper pointers), "
+            "the pair is compared by creation ordinal by ArkProd; the check is inconclusive unless every generated variant "
+            "was exercised.", "7 C14"),
+    "C18": ("ArkReg.tla: registry and mask-to-component-list conversion with the word arithmetic kept and the constants scaled "
+            "down so that 'all ids registered' is reachable: ids sequential, stable, injective; every mask over registered ids "
+            "usable; over-limit and locked registration panic without consuming an id; resources a partial map.  Conformance at "
+            "the real limits: 256 (64 with ark_tiny) types registered in random order with repeats, entities / filters / queries "
+            "over the highest ids and every word boundary, validated event by event.", "7 C18"),
+    "C20": ("Product traces of the four builds (none, ark_tiny, ark_debug, both) over TLC- and driver-generated histories incl. "
+            "misuse calls and a battery of query / mapper accessor misuse (Get / Entity before Next, after exhaustion, after "
+            "Close; Next after Close; access to missing components; partial Set): equal results and panic / no panic per call.",
+            "7 C20"),
     "C15": ("Shrink stutters on layer A while layer B's invariants keep holding after it and after every later step; "
             "capacity bounds and no-work-left after an unbounded Shrink are an action property.  Replays with Shrink at "
             "generator-chosen positions; a disagreement is attributed to C15 iff it disappears when the Shrink calls are "
